@@ -953,6 +953,194 @@ fn cmd_refvalue() {
     }
 }
 
+// ---- a mate oracle over the engine's own board API (mirrors model/ChessSearch.v: is_mated, mating_moves, wins_in, keeps_mate,
+// allows_mate_in_one) and a hunt for violations of the three mate clauses with the cache ON ----
+fn legal_moves_of(b: &mut Board) -> Vec<Ply> {
+    b.get_legal_moves()
+}
+fn o_is_mated(b: &mut Board) -> bool {
+    legal_moves_of(b).is_empty() && b.is_in_check(b.current_turn)
+}
+fn o_wins_in(n: u32, b: &mut Board) -> bool {
+    if n == 0 {
+        return false;
+    }
+    for m in legal_moves_of(b) {
+        b.make_move(m);
+        let ok = if o_is_mated(b) {
+            true
+        } else {
+            let rs = legal_moves_of(b);
+            if rs.is_empty() {
+                false
+            } else {
+                let mut all = true;
+                for r in rs {
+                    b.make_move(r);
+                    let w = o_wins_in(n - 1, b);
+                    b.unmake_move();
+                    if !w {
+                        all = false;
+                        break;
+                    }
+                }
+                all
+            }
+        };
+        b.unmake_move();
+        if ok {
+            return true;
+        }
+    }
+    false
+}
+fn o_keeps_mate(n: u32, b: &mut Board, m: Ply) -> bool {
+    b.make_move(m);
+    let ok = if o_is_mated(b) {
+        true
+    } else {
+        let rs = legal_moves_of(b);
+        if rs.is_empty() {
+            false
+        } else {
+            let mut all = true;
+            for r in rs {
+                b.make_move(r);
+                let w = o_wins_in(n, b);
+                b.unmake_move();
+                if !w {
+                    all = false;
+                    break;
+                }
+            }
+            all
+        }
+    };
+    b.unmake_move();
+    ok
+}
+fn o_mates(b: &mut Board, m: Ply) -> bool {
+    b.make_move(m);
+    let r = o_is_mated(b);
+    b.unmake_move();
+    r
+}
+fn o_allows_mate_in_one(b: &mut Board, m: Ply) -> bool {
+    b.make_move(m);
+    let mut any = false;
+    for r in legal_moves_of(b) {
+        if o_mates(b, r) {
+            any = true;
+            break;
+        }
+    }
+    b.unmake_move();
+    any
+}
+
+/// matehunt: stdin lines "FEN | d3;d4,d3;..." (sequences separated by ';', searches of one sequence share the cache, which is
+/// emptied before each sequence).  For every search of depth >= 3 the chosen move is judged by the oracle.  Output per line:
+/// {"facts":[mate1, mate2, avoidable], "violations":[{"seq":..,"k":..,"move":..,"clause":..}]}
+fn cmd_matehunt() {
+    use crate::board::transposition_table::TRANSPOSITION_TABLE;
+    use crate::search::Search;
+    let mut o = out();
+    for line in std::io::stdin().lock().lines() {
+        let line = line.unwrap();
+        let parts: Vec<&str> = line.split('|').collect();
+        if parts.len() < 2 {
+            continue;
+        }
+        let fen = parts[0].trim().to_string();
+        let seqs = parts[1].trim().to_string();
+        let r = catch_unwind(AssertUnwindSafe(|| {
+            let mut b = Board::from_fen(&fen);
+            let legal = legal_moves_of(&mut b);
+            if legal.is_empty() {
+                return "{\"facts\":null,\"violations\":[]}".to_string();
+            }
+            let mating: Vec<Ply> = legal.iter().copied().filter(|m| o_mates(&mut b, *m)).collect();
+            let win2 = mating.is_empty() && o_wins_in(2, &mut b);
+            let allows: Vec<bool> = legal.iter().map(|m| o_allows_mate_in_one(&mut b, *m)).collect();
+            let avoidable = allows.iter().any(|x| *x) && allows.iter().any(|x| !*x);
+            let mut viol: Vec<String> = Vec::new();
+            if !mating.is_empty() || win2 || avoidable {
+                for seq in seqs.split(';') {
+                    TRANSPOSITION_TABLE.write().unwrap().clear();
+                    for (k, d) in seq.split(',').enumerate() {
+                        let depth: u8 = d.trim().trim_start_matches('d').parse().unwrap_or(3);
+                        let mut search = Search::new(&b, None);
+                        *crate::search::verif::TRACE.lock().unwrap() = None;
+                        search.search(&SimpleEvaluator, Some(depth));
+                        let (bm, _, _, _) = search.verif_result();
+                        if depth < 3 {
+                            continue;
+                        }
+                        let Some(c) = bm else { continue };
+                        let mut clause = 0;
+                        if !mating.is_empty() {
+                            if !mating.iter().any(|m| m.start == c.start && m.dest == c.dest && m.promoted_to == c.promoted_to) {
+                                clause = 1;
+                            }
+                        } else if win2 && !o_keeps_mate(1, &mut b, c) {
+                            // strict reading failed (the mate in two is not kept); lenient: some forced mate within 2..4 more moves
+                            clause = if o_keeps_mate(2, &mut b, c) {
+                                20
+                            } else if o_keeps_mate(3, &mut b, c) {
+                                30
+                            } else if o_keeps_mate(4, &mut b, c) {
+                                40
+                            } else {
+                                2
+                            };
+                        }
+                        if clause == 0 && avoidable && o_allows_mate_in_one(&mut b, c) {
+                            clause = 3;
+                        }
+                        if clause != 0 {
+                            viol.push(format!("{{\"seq\":\"{seq}\",\"k\":{k},\"move\":\"{}\",\"clause\":{clause}}}", c.to_notation()));
+                        }
+                    }
+                }
+            }
+            TRANSPOSITION_TABLE.write().unwrap().clear();
+            format!(
+                "{{\"facts\":[{},{},{}],\"violations\":[{}]}}",
+                u8::from(!mating.is_empty()),
+                u8::from(win2),
+                u8::from(avoidable),
+                viol.join(",")
+            )
+        }));
+        match r {
+            Ok(s) => writeln!(o, "{s}").unwrap(),
+            Err(_) => writeln!(o, "{{\"panic\":true}}").unwrap(),
+        }
+    }
+}
+
+/// matefacts: stdin lines "FEN"; output {"mating":[notations],"win2":0/1,"allows":[[notation,0/1],...]} — the driver's mate oracle in
+/// the same shape as `mate_facts` of model/ChessSearch.v, so that it can be validated against the Coq oracle
+fn cmd_matefacts() {
+    let mut o = out();
+    for line in std::io::stdin().lock().lines() {
+        let fen = line.unwrap().trim().to_string();
+        let r = catch_unwind(AssertUnwindSafe(|| {
+            let mut b = Board::from_fen(&fen);
+            let legal = legal_moves_of(&mut b);
+            let mating: Vec<String> = legal.iter().copied().filter(|m| o_mates(&mut b, *m)).map(|m| format!("\"{}\"", m.to_notation())).collect();
+            let win2 = o_wins_in(2, &mut b);
+            let allows: Vec<String> =
+                legal.iter().map(|m| format!("[\"{}\",{}]", m.to_notation(), u8::from(o_allows_mate_in_one(&mut b, *m)))).collect();
+            format!("{{\"mating\":[{}],\"win2\":{},\"allows\":[{}]}}", mating.join(","), u8::from(win2), allows.join(","))
+        }));
+        match r {
+            Ok(s) => writeln!(o, "{s}").unwrap(),
+            Err(_) => writeln!(o, "{{\"panic\":true}}").unwrap(),
+        }
+    }
+}
+
 pub fn main(args: &[String]) {
     // keep panics quiet: they are reported as outcomes
     std::panic::set_hook(Box::new(|_| {}));
@@ -965,6 +1153,8 @@ pub fn main(args: &[String]) {
         "fen" => cmd_fen(),
         "accepts" => cmd_accepts(),
         "refvalue" => cmd_refvalue(),
+        "matehunt" => cmd_matehunt(),
+        "matefacts" => cmd_matefacts(),
         "tofen" => cmd_tofen(),
         "randfens" => cmd_randfens(&args[1..]),
         "eval" => cmd_eval(),
